@@ -196,6 +196,47 @@ func main() {
 		checkValue(c, l.g.Kind(c, gg.KCollection, 0, true))
 	})
 
+	// Orientation == sign of the shoelace area of the implicitly closed ring; Reverse negates it
+	on := ev.Pick(r, 4, 5)
+	r.Explore("orientation", fmt.Sprintf("every vertex list of 3..%d points on the 3x3 grid, unclosed and closed: Orientation is the sign of the exact shoelace area, reversing negates it, reversing twice is the identity", on), mc.Opts{MaxDev: -1, Split: 2}, func(c *mc.Ctx) {
+		n := 3 + c.Choose(on-2)
+		ring := make(orb.Ring, n)
+		var a2 int64
+		xs := make([][2]int64, n)
+		for i := range ring {
+			k := c.Choose(9)
+			xs[i] = [2]int64{int64(k % 3), int64(k / 3)}
+			ring[i] = orb.Point{float64(k % 3), float64(k / 3)}
+		}
+		for i := range xs {
+			p, q := xs[i], xs[(i+1)%n]
+			a2 += p[0]*q[1] - q[0]*p[1]
+		}
+		want := orb.Orientation(0)
+		if a2 > 0 {
+			want = orb.CCW
+		} else if a2 < 0 {
+			want = orb.CW
+		}
+		for _, v := range []orb.Ring{ring, append(ring.Clone(), ring[0])} {
+			if got := v.Orientation(); got != want {
+				c.Failf("orientation", "Orientation(%v) = %d, the shoelace area of the (implicitly closed) ring has sign %d", v, got, want)
+			}
+			w := v.Clone()
+			w.Reverse()
+			if got := w.Orientation(); got != -want {
+				c.Failf("orientation", "Orientation after Reverse of %v = %d, want %d", v, got, -want)
+			}
+			w.Reverse()
+			if !w.Equal(v) {
+				c.Failf("reverse", "reversing %v twice gives %v", v, w)
+			}
+		}
+		if a2 != 0 {
+			c.NonTrivial()
+		}
+	})
+
 	// Equal on all ordered pairs of a sub-universe (distinct by bit rendering)
 	var uni []orb.Geometry
 	{
